@@ -3,6 +3,8 @@
 package vtime
 
 import (
+	"context"
+	"sync/atomic"
 	"time"
 
 	"github.com/flant/shell-operator/pkg/zzverif/vrt"
@@ -116,3 +118,43 @@ func (t *Timer) Reset(d Duration) bool {
 func After(d Duration) <-chan Time { return NewTimer(d).C }
 
 func Tick(d Duration) <-chan Time { return NewTicker(d).C }
+
+// WithTimeout / WithDeadline are context.WithTimeout / WithDeadline on the virtual clock (call
+// sites are routed here by the instrumenter): the deadline a callee reads (x/time/rate does)
+// is a virtual instant, and the context is cancelled by a virtual timer.
+type vctx struct {
+	context.Context
+	deadline time.Time
+	expired  *atomic.Bool
+}
+
+func (c vctx) Deadline() (time.Time, bool) { return c.deadline, true }
+func (c vctx) Err() error {
+	if c.expired.Load() {
+		return context.DeadlineExceeded
+	}
+	return c.Context.Err()
+}
+
+func WithTimeout(parent context.Context, d Duration) (context.Context, context.CancelFunc) {
+	if vrt.Active() == nil {
+		return context.WithTimeout(parent, d)
+	}
+	return WithDeadline(parent, Now().Add(d))
+}
+
+func WithDeadline(parent context.Context, at Time) (context.Context, context.CancelFunc) {
+	if vrt.Active() == nil {
+		return context.WithDeadline(parent, at)
+	}
+	if cur, ok := parent.Deadline(); ok && cur.Before(at) {
+		return context.WithCancel(parent)
+	}
+	inner, cancel := context.WithCancel(parent)
+	expired := &atomic.Bool{}
+	stop := vrt.AfterFunc(at.Sub(Now()), func() {
+		expired.Store(true)
+		cancel()
+	})
+	return vctx{inner, at, expired}, func() { stop(); cancel() }
+}
